@@ -619,6 +619,8 @@ type channel struct {
 	buf    []value
 	cap    int
 	closed bool
+	sent   int // values offered on an unbuffered channel
+	recvd  int // values taken by receivers
 }
 
 func zeroBytes(n int64) value { return string(make([]byte, n)) }
